@@ -21,7 +21,7 @@
    the culprit node's class:  "char-escape:<ch>", "unsigned-wrap:<op>",
    "negative-to-unsigned:<op>" or "other:<op>".                                              *)
 EXTENDS PlatformBV
-CONSTANTS IntBits, LongBits, Variant      \* Variant: "faithful" | "floordiv" | "pymod" | "hexoct"
+CONSTANTS IntBits, LongBits, Variant      \* Variant: "faithful" | "floordiv" | "pymod"
 
 TInt   == [bits |-> IntBits,  sgn |-> TRUE]
 TUInt  == [bits |-> IntBits,  sgn |-> FALSE]
@@ -102,7 +102,7 @@ PErr(msg) == [err |-> msg, v |-> Z0]
 PVal(v) == [err |-> "", v |-> v]
 
 \* :881-896  s.rstrip('uUlL'); int(s, 8) if it starts with '0' else int(s, 10); on ValueError hex
-\* (the value of the digits whatever the base - unless Variant "hexoct" reads octal as decimal... )
+\* (i.e. the value of the digits in their base, whatever the suffix)
 PLit(e) == PVal(ZMk(FALSE, e.mag))
 \* :897-899  ord(s[-2]): the character before the closing quote, escaped or not
 PChr(e) == PVal(Z(e.ch))
@@ -163,10 +163,13 @@ Eval(e) ==
   CASE e.op = "lit" -> Node(e, CLit(e), PLit(e), <<>>)
     [] e.op = "chr" -> Node(e, CChr(e), PChr(e), <<>>)
     [] e.op \in {"neg", "pos"} ->
-         Bind(Eval(e.a), LAMBDA x : Node(e, CUnary(e.op, x.c), PUnary(e.op, x.p), <<x>>))
+         Bind(Eval(e.a), LAMBDA x : Bind(CUnary(e.op, x.c), LAMBDA c :
+           Node(e, c, IF c.def THEN PUnary(e.op, x.p) ELSE PErr("undefined in C"), <<x>>)))
     [] OTHER ->
          Bind(Eval(e.a), LAMBDA x : Bind(Eval(e.b), LAMBDA y :
-           Node(e, CBinary(e.op, x.c, y.c), PBinary(e.op, x.p, y.p), <<x, y>>)))
+           Bind(CBinary(e.op, x.c, y.c), LAMBDA c :
+             \* (the implementation is only evaluated where C defines the value: the property is silent elsewhere)
+             Node(e, c, IF c.def THEN PBinary(e.op, x.p, y.p) ELSE PErr("undefined in C"), <<x, y>>))))
 
 CEval(e) == Eval(e).c
 CffiEval(e) == Eval(e).p
